@@ -65,6 +65,48 @@ def flat(opts):
     return out
 
 
+OPT_KIND = {"--select": "select", "--filter": "filter", "--split-by": "filter", "--group-by": "filter", "--sort-by": "sort", "--set": "set"}
+
+
+def syntax_records(chk, plans, obs, table, quick):
+    """The specification's own reader (ExprSyntax.tla) must call the corrupted option value invalid and every value of the uncorrupted
+    configuration valid: invalidity is then a statement of the specification, not only of this generator."""
+    import exprlib as EL
+    ff = EL.funcs_file(table)
+    recs, descs = [], []
+    for i, p in enumerate(plans):
+        if p["kind"].split("/")[0] not in ("expr", "direction", "set-noeq", "set-garbage", "macro-garbage"):
+            continue
+        base = set(p["base_argv"])
+        bad = [a for a in p["argv"] if a not in base and "=" in a and a.split("=", 1)[0] in OPT_KIND]
+        for a in bad:
+            flag, val = a.split("=", 1)
+            if EL.is_ascii(val) and "ictx" not in val:
+                recs.append({"case": len(recs), "opt": OPT_KIND[flag], "text": [ord(c) for c in val], "accepted": obs[2 * i]["res"] == "ok"})
+                descs.append({"argv": p["argv"], "option": a, "corrupted": True})
+        for a in p["base_argv"]:
+            if "=" in a and a.split("=", 1)[0] in OPT_KIND:
+                flag, val = a.split("=", 1)
+                if EL.is_ascii(val) and not (flag == "--set" and not val.startswith("@") and "(" in val):
+                    recs.append({"case": len(recs), "opt": OPT_KIND[flag], "text": [ord(c) for c in val], "accepted": True})
+                    descs.append({"argv": p["base_argv"], "option": a, "corrupted": False})
+    if not recs:
+        return
+    flags, res = run_trace_spec("Trace_Syntax", recs, "c18s", nproc=2 if quick else 12, env={"FUNCS": ff})
+    os.remove(ff)
+    chk.traces += len(recs)
+    chk.notes["option_values_read_by_ExprSyntax"] = len(recs)
+    for kind, case, what in flags:
+        d = descs[case]
+        if kind == "MISMATCH":
+            chk.violation("C18: %s  option %s of %s" % (what, d["option"], d["argv"]), {"recipe": d, "flag": what})
+        elif kind == "REFUSED" and d["corrupted"]:
+            # the specification's reader is more permissive than jawk here (a lenient literal form, for instance): nothing C18 says
+            chk.drift.append({"option": d["option"], "what": what})
+        else:
+            raise ToolError("ExprSyntax.tla disagrees with an accepted, uncorrupted option value %s: %s" % (d["option"], what))
+
+
 def check(tier, seed, replay=None):
     chk = Check("C18", tier, seed)
     quick = tier == "quick"
@@ -175,7 +217,8 @@ def check(tier, seed, replay=None):
         descs.append(d)
         chk.nontrivial.add(tuple(p["argv"]))
     RL.validate(chk, recs, descs, "c18", 2 if quick else 12, "C18")
-    chk.traces = len(recs)
+    chk.traces += len(recs)
+    syntax_records(chk, plans, obs, table, quick)
     chk.evaluations = len(cases)
     kinds = {}
     for p in plans:
